@@ -73,7 +73,7 @@ type Rig struct {
 	connected bool
 
 	// scripted application behaviour
-	RefuseResend func(seq int, msgType string) bool          // ToApp with PossDupFlag=Y returns an error
+	RefuseResend func(seq int, msgType string) bool             // ToApp with PossDupFlag=Y returns an error
 	RefuseSend   func(msgType string, m *quickfix.Message) bool // ToApp first time returns an error
 	FromAppErr   func(m *quickfix.Message) quickfix.MessageRejectError
 	FromAdminErr func(m *quickfix.Message) quickfix.MessageRejectError
@@ -82,9 +82,57 @@ type Rig struct {
 	// timers as last armed (virtual clock support)
 	Armed map[string]time.Duration
 
-	mu    sync.Mutex
-	store *recStore
+	mu       sync.Mutex
+	store    *recStore
 	panicked interface{}
+
+	// Concurrent mode (C02): the connection channel is unbuffered as in production and drained
+	// by one goroutine that stamps every frame with a global event counter; the wrapping store
+	// stamps every completed save with the same counter.
+	ExternalDrain bool
+	stamp         int64
+	Wire          []Stamped // frames in the order they left the channel
+	Saves         []Stamped // completed SaveMessageAndIncrNextSenderMsgSeqNum / IncrNextSenderMsgSeqNum calls
+	StorePause    func()    // called inside the store wrapper (schedule perturbation)
+	drainDone     chan struct{}
+}
+
+// Stamped is a frame or a store save with its global event stamp.
+type Stamped struct {
+	Stamp int64
+	Seq   int
+	Bytes []byte
+}
+
+func (r *Rig) nextStamp() int64 {
+	r.mu.Lock()
+	defer r.mu.Unlock()
+	r.stamp++
+	return r.stamp
+}
+
+// StampNow returns a fresh stamp (to delimit wire segments).
+func (r *Rig) StampNow() int64 { return r.nextStamp() }
+
+// WireSnapshot returns a copy of the stamped wire log.
+func (r *Rig) WireSnapshot() []Stamped {
+	r.mu.Lock()
+	defer r.mu.Unlock()
+	return append([]Stamped(nil), r.Wire...)
+}
+
+// SavesSnapshot returns a copy of the stamped save log.
+func (r *Rig) SavesSnapshot() []Stamped {
+	r.mu.Lock()
+	defer r.mu.Unlock()
+	return append([]Stamped(nil), r.Saves...)
+}
+
+// WaitDrained waits until the drainer goroutine has seen the channel closed.
+func (r *Rig) WaitDrained() {
+	if r.drainDone != nil {
+		<-r.drainDone
+	}
 }
 
 // ---- recording store
@@ -98,6 +146,23 @@ func (s *recStore) Reset() error {
 	prev := s.MessageStore.NextTargetMsgSeqNum()
 	err := s.MessageStore.Reset()
 	s.r.add(Entry{Kind: "store.Reset", Prev: prev, Value: 1})
+	return err
+}
+
+func (s *recStore) SaveMessageAndIncrNextSenderMsgSeqNum(seq int, msg []byte) error {
+	if s.r.StorePause != nil {
+		s.r.StorePause()
+	}
+	err := s.MessageStore.SaveMessageAndIncrNextSenderMsgSeqNum(seq, msg)
+	if s.r.StorePause != nil {
+		s.r.StorePause()
+	}
+	if err == nil && s.r.ExternalDrain {
+		st := s.r.nextStamp()
+		s.r.mu.Lock()
+		s.r.Saves = append(s.r.Saves, Stamped{Stamp: st, Seq: seq, Bytes: append([]byte(nil), msg...)})
+		s.r.mu.Unlock()
+	}
 	return err
 }
 
@@ -140,13 +205,15 @@ func (l recLog) OnOutgoing(b []byte) {
 	seq, _ := fixwire.GetInt(fs, 34)
 	l.r.add(Entry{Kind: "out", MsgType: fixwire.GetS(fs, 35), Seq: seq, PossDup: fixwire.GetS(fs, 43) == "Y", Fields: fs, Raw: append([]byte(nil), b...)})
 }
-func (l recLog) OnEvent(string)                 {}
+func (l recLog) OnEvent(string)                  {}
 func (l recLog) OnEventf(string, ...interface{}) {}
 
 type recLogFactory struct{ r *Rig }
 
-func (f recLogFactory) Create() (quickfix.Log, error)                               { return recLog{f.r}, nil }
-func (f recLogFactory) CreateSessionLog(quickfix.SessionID) (quickfix.Log, error) { return recLog{f.r}, nil }
+func (f recLogFactory) Create() (quickfix.Log, error) { return recLog{f.r}, nil }
+func (f recLogFactory) CreateSessionLog(quickfix.SessionID) (quickfix.Log, error) {
+	return recLog{f.r}, nil
+}
 
 // ---- application
 
@@ -318,12 +385,19 @@ type StepResult struct {
 	Panic    interface{}
 }
 
-func (r *Rig) begin() int { r.Step++; return len(r.Trace) }
+func (r *Rig) begin() int {
+	r.mu.Lock()
+	defer r.mu.Unlock()
+	r.Step++
+	return len(r.Trace)
+}
 
 func (r *Rig) end(from int, pan interface{}) StepResult {
 	res := StepResult{From: from, Panic: pan}
 	res.Frames = r.drain()
+	r.mu.Lock()
 	res.To = len(r.Trace)
+	r.mu.Unlock()
 	return res
 }
 
@@ -340,7 +414,7 @@ func (r *Rig) guard(f func()) (pan interface{}) {
 
 func (r *Rig) drain() [][]byte {
 	var frames [][]byte
-	if r.out == nil {
+	if r.out == nil || r.ExternalDrain {
 		return nil
 	}
 	for {
@@ -369,11 +443,32 @@ func (r *Rig) Connect() (StepResult, bool) {
 		// the previous channel is still open on the harness side: the engine refuses a second connect
 	}
 	out := make(chan []byte, 8192)
+	if r.ExternalDrain {
+		out = make(chan []byte)
+		done := make(chan struct{})
+		r.drainDone = done
+		go func(ch chan []byte) {
+			defer close(done)
+			for b := range ch {
+				st := r.nextStamp()
+				fs, _ := fixwire.Scan(b, map[int]int{212: 213})
+				seq, _ := fixwire.GetInt(fs, 34)
+				r.mu.Lock()
+				r.Wire = append(r.Wire, Stamped{Stamp: st, Seq: seq, Bytes: b})
+				r.mu.Unlock()
+			}
+		}(out)
+	}
 	var ok bool
 	wasConnected := r.V.IsConnected()
 	pan := r.guard(func() { ok = r.V.Connect(out) })
+	if r.ExternalDrain && !(ok && !wasConnected) {
+		close(out) // refused: let the drainer goroutine end
+	}
 	if ok && !wasConnected {
+		r.mu.Lock()
 		r.Conn++
+		r.mu.Unlock()
 		r.out = out
 		r.OutClosed = false
 		// re-stamp this step's entries with the new connection number
